@@ -25,3 +25,83 @@ package collector
 //@   requires a != nil
 //@   ensures [hit-returned-is-fed] (next != nil && err == nil) ==> (fedCount == old(fedCount) + 1 && lastFed == next)
 //@   ensures [nothing-fed-otherwise] !(next != nil && err == nil) ==> fedCount == old(fedCount)
+
+// ---------------------------------------------------------------------------
+// C09: the small (slice) store keeps the hits sorted by the collector's order
+// ---------------------------------------------------------------------------
+// cmp(a, b): the three-way comparison the store was built with, an arbitrary total preorder
+//@ spec fn cmp(a ref, b ref) int
+//@ axiom cmp_refl: forall a ref :: cmp(a, a) == 0
+//@ axiom cmp_antisym: forall a ref, b ref :: (cmp(a, b) < 0 <==> cmp(b, a) > 0) && (cmp(a, b) == 0 <==> cmp(b, a) == 0)
+//@ axiom cmp_trans: forall a ref, b ref, c ref :: (cmp(a, b) <= 0 && cmp(b, c) <= 0) ==> cmp(a, c) <= 0
+
+//@ func collectorCompareSpec(i, j) (r)
+//@   interface
+//@   props C09
+//@   pure
+//@   ensures r == cmp(i, j)
+//@ field_contract collectStoreSlice.compare = github.com/blugelabs/bluge/search/collector.collectorCompareSpec
+
+// add: sorted in, sorted out, one longer, the new hit is in it and the old ones keep their order
+//@ func collectStoreSlice.add
+//@   props C09
+//@   nopanic nonil
+//@   requires c != nil
+//@   requires [sorted] forall p int, q int :: (0 <= p && p <= q && q < len(c.slice)) ==> cmp(c.slice[p], c.slice[q]) <= 0
+//@   ensures len(c.slice) == old(len(c.slice)) + 1
+//@   ensures [sorted] forall p int, q int :: (0 <= p && p <= q && q < len(c.slice)) ==> cmp(c.slice[p], c.slice[q]) <= 0
+//@   at call append: assert [below-insertion-point] forall p int :: (0 <= p && p < i) ==> cmp(c.slice[p], doc) <= 0
+//@   exit [placed] c.slice[i] == doc
+//@   exit [prefix-kept] forall j int :: (0 <= j && j < i) ==> c.slice[j] == old(c.slice[j])
+//@   exit [suffix-shifted] forall j int :: (i < j && j < len(c.slice)) ==> c.slice[j] == old(c.slice[j - 1])
+//@   loop 1
+//@     invariant 0 <= i && i <= len(c.slice)
+//@     invariant forall j int :: (i <= j && j < len(c.slice)) ==> cmp(doc, c.slice[j]) < 0
+
+//@ func collectStoreSlice.removeLast() (r)
+//@   props C09
+//@   nopanic nonil
+//@   requires c != nil && len(c.slice) > 0
+//@   modifies c.slice
+//@   ensures r == old(c.slice[len(c.slice) - 1])
+//@   ensures len(c.slice) == old(len(c.slice)) - 1
+//@   ensures [rest-kept] forall j int :: (0 <= j && j < len(c.slice)) ==> c.slice[j] == old(c.slice[j])
+
+//@ func collectStoreSlice.len() (n)
+//@   props C09
+//@   pure
+//@   requires c != nil
+//@   ensures n == len(c.slice)
+
+//@ func collectStoreSlice.AddNotExceedingSize(doc, size) (r)
+//@   props C09
+//@   nopanic nonil
+//@   requires c != nil && size >= 0
+//@   requires [sorted] forall p int, q int :: (0 <= p && p <= q && q < len(c.slice)) ==> cmp(c.slice[p], c.slice[q]) <= 0
+//@   ensures [sorted] forall p int, q int :: (0 <= p && p <= q && q < len(c.slice)) ==> cmp(c.slice[p], c.slice[q]) <= 0
+//@   ensures [grows-until-full] old(len(c.slice)) < size ==> (r == nil && len(c.slice) == old(len(c.slice)) + 1)
+//@   ensures [evicts-when-full] old(len(c.slice)) >= size ==> len(c.slice) == old(len(c.slice))
+//@   ensures [evicted-is-worst] old(len(c.slice)) >= size ==> (forall j int :: (0 <= j && j < len(c.slice)) ==> cmp(c.slice[j], r) <= 0)
+
+//@ func collectStoreSlice.Final(skip, fixup) (r, err)
+//@   props C09
+//@   nopanic nonil
+//@   requires c != nil && skip >= 0
+//@   ensures [page-is-the-suffix] (err == nil && skip <= len(c.slice)) ==> (len(r) == len(c.slice) - skip && (forall j int :: (0 <= j && j < len(r)) ==> r[j] == c.slice[skip + j]))
+//@   ensures [store-order-untouched] forall j int :: (0 <= j && j < len(c.slice)) ==> c.slice[j] == old(c.slice[j])
+//@   ensures [beyond-the-end-is-empty] (err == nil && skip > len(c.slice)) ==> len(r) == 0
+//@   loop 1
+//@     invariant skip <= i
+//@     invariant forall j int :: (0 <= j && j < len(c.slice)) ==> c.slice[j] == old(c.slice[j])
+//@     invariant len(c.slice) == old(len(c.slice))
+
+// constructing a collector reads the sort order; it does not change it (frame assumed: the body
+// calls the value sources' Fields methods through an interface)
+//@ func NewTopNCollector
+//@   props C09
+//@   assume_frame
+//@   modifies
+//@ func NewTopNCollectorAfter
+//@   props C09
+//@   assume_frame
+//@   modifies
